@@ -59,6 +59,7 @@ ASSUMPTIONS = [
 ]
 PARTIAL = [
     'expand_*: proved for one axis (any accepted sign); several axes / per-axis spacings under correspondence only',
+    'sliding_window*: stated on the no-wrap domain (windows >= 1, total trim of an axis <= its extent; NumPy additionally refuses a trimmed extent 0); beyond it the C++ wraps in size_t (huge extent) while the model truncates at 0 — not generated, not claimed',
     'sliding_window: scalar window with axis None is NumPy-defined for rank 1 only (slidingWindowScalarNone_rank1); for higher ranks the C++ accepts the call (every axis shrinks, one window axis added to axis 0) — no reference, model mirrors it, not generated',
     'splitIdx_*: cut points >= 0 (a negative cut point wraps to a huge size_t in the C++ and means from-the-end in NumPy: outside the domain); splitIdx_partition additionally needs sorted cut points',
     'where, arange, linspace, full/zeros/ones(_like): no theorem (where: plumbing over broadcast, C06/C07; generators: IMPL vs NumPy only)',
